@@ -91,6 +91,8 @@ def make_providers(schedule, rc=None, fc=None, hints=None, packages=None, fc_fun
         edifact_format = sut.FMT
         edifact_format_version = sut.VER
 
+        seen_scopes = {}  # key -> scope of the context the evaluation method was handed (before it narrows it)
+
         def _get_default_context(self):
             return EvaluationContext(scope=None)
 
@@ -98,6 +100,7 @@ def make_providers(schedule, rc=None, fc=None, hints=None, packages=None, fc_fun
         if index % 3 == 2:
 
             def plain(self, evaluatable_data, context, key=key, value=value):  # pylint:disable=unused-argument
+                self.seen_scopes[key] = context.scope
                 if key in rc_raises:
                     raise BackendUnavailable(f"the backend of [{key}] does not answer")
                 return sut.cfv(value)
@@ -108,6 +111,7 @@ def make_providers(schedule, rc=None, fc=None, hints=None, packages=None, fc_fun
             async def delayed(self, evaluatable_data, context, key=key, value=value):  # pylint:disable=unused-argument
                 # the evaluation context handed to a method is that evaluation's own: narrowing its scope must not
                 # be visible to (or be overwritten by) the evaluation of another key
+                self.seen_scopes[key] = context.scope
                 context.scope = f"$.key{key}"
                 await schedule.pause(("rc", key, value))
                 if key in rc_raises:
